@@ -2,7 +2,7 @@
 import itertools
 
 from gen.translit import translate_functions, Untranslatable
-from harness.common import lean_list
+from harness.common import lean_list, lean_str, lean_int, rat, wl, corpus_cases
 
 PID = 'C09'
 MODULES = ['NoteSeqVerif.Props.C09']
@@ -12,7 +12,17 @@ THEOREMS = [
     'NSV.C09.velocity_bin_range', 'NSV.C09.velocity_bin_mono', 'NSV.C09.velocity_bin_right_inverse',
     'NSV.C09.ranges_decode_encode', 'NSV.C09.ranges_encode_decode',
     'NSV.C09.perf_decode_encode', 'NSV.C09.perf_encode_decode', 'NSV.C09.perf_default_in_range',
-    'NSV.C09.drum_decode_encode_default',
+    # multi-drum: generic (any pairwise-disjoint non-empty table), then the generated default table
+    'NSV.C09.drum_decode_encode', 'NSV.C09.drum_encode_decode', 'NSV.C09.drum_canonical_same_classes',
+    'NSV.C09.drum_unknown_raises', 'NSV.C09.drum_default_table_ok', 'NSV.C09.drum_default_decode_encode',
+    'NSV.C09.drum_default_encode_decode', 'NSV.C09.drum_decode_encode_default',
+    # chord one-hot encodings (structured symbols)
+    'NSV.C09.chord_name_table', 'NSV.C09.mm_decode_encode', 'NSV.C09.mm_decode_root_quality',
+    'NSV.C09.mm_encode_decode', 'NSV.C09.mm_encode_rejects',
+    'NSV.C09.triad_decode_encode', 'NSV.C09.triad_decode_root_quality', 'NSV.C09.triad_encode_decode',
+    'NSV.C09.triad_encode_rejects',
+    # note density
+    'NSV.C09.density_decode_encode', 'NSV.C09.density_encode_decode',
 ]
 
 
@@ -40,14 +50,64 @@ def generate(chk):
         return
     PE = pl.PerformanceEvent
     table = ded.DEFAULT_DRUM_TYPE_PITCHES
+    try:
+        chord_txt = _chord_tables()
+        chk.translit['chord tables'] = 'regenerated from source'
+    except Exception as e:  # pylint: disable=broad-except
+        chk.translit['chord tables'] = 'BROKEN: %s' % e
+        chk.broken.append('translator:C09 chord tables (%s: %s)' % (type(e).__name__, e))
+        return
     txt = ('/-! GENERATED from /repo on every run by harness/c09.py — do not edit. -/\n'
            'namespace NSV.C09.Gen\n' + t1 + '\n' + t2 + '\n'
            'def MIN_MIDI_PITCH : Int := %d\ndef MAX_MIDI_PITCH : Int := %d\n' % (constants.MIN_MIDI_PITCH, constants.MAX_MIDI_PITCH)
            + 'def NOTE_ON : Nat := %d\ndef NOTE_OFF : Nat := %d\ndef TIME_SHIFT : Nat := %d\ndef VELOCITY : Nat := %d\n'
            % (PE.NOTE_ON, PE.NOTE_OFF, PE.TIME_SHIFT, PE.VELOCITY)
            + 'def drumTable : List (List Nat) := %s\n' % lean_list(lean_list(str(p) for p in row) for row in table)
+           + chord_txt
            + 'end NSV.C09.Gen\n')
     chk.regenerate('NoteSeqVerif/Generated/C09.lean', txt)
+
+
+def _chars(st):
+    """Lean `List Char` literal of a short ASCII string (letters, digits, # - + / ( ) only)."""
+    for c in st:
+        if not (c.isalnum() or c in '#-+/()') or ord(c) > 126:
+            raise ValueError('unexpected character %r in %r' % (c, st))
+    return lean_list("'%s'" % c for c in st)
+
+
+MOD_OPS = ['_add_scale_degree', '_subtract_scale_degree', '_alter_scale_degree']
+
+
+def _chord_tables():
+    """constants and tables of chords_encoder_decoder / chord_symbols_lib the chord model uses"""
+    from note_seq import chords_encoder_decoder as ced, chord_symbols_lib as csl
+    names = list(ced._PITCH_CLASS_MAPPING)
+    steps = list(csl._STEPS_MIDI.items())
+    kinds = [(ab, [csl._parse_degree(d) for d in degs]) for ab, degs in csl._CHORD_KINDS_BY_ABBREV.items()]
+    mods = []
+    for ab, (fn, alter) in csl._DEGREE_MODIFICATIONS.items():
+        mods.append((ab, MOD_OPS.index(fn.__name__), alter))
+        if getattr(csl, fn.__name__) is not fn:
+            raise ValueError('modification function %s is not the module-level one' % fn.__name__)
+    for (st, m) in steps:
+        if len(st) != 1:
+            raise ValueError('step name %r' % st)
+    if not isinstance(ced.NO_CHORD, str) or ' ' in ced.NO_CHORD:
+        raise ValueError('NO_CHORD %r' % (ced.NO_CHORD,))
+    q = [csl.CHORD_QUALITY_MAJOR, csl.CHORD_QUALITY_MINOR, csl.CHORD_QUALITY_AUGMENTED,
+         csl.CHORD_QUALITY_DIMINISHED, csl.CHORD_QUALITY_OTHER]
+    return (
+        'def NOTES_PER_OCTAVE : Int := %d\n' % ced.NOTES_PER_OCTAVE
+        + 'def NO_CHORD : String := %s\n' % lean_str(ced.NO_CHORD)
+        + ''.join('def CHORD_QUALITY_%s : Nat := %d\n' % (n, v) for n, v in
+                  zip(['MAJOR', 'MINOR', 'AUGMENTED', 'DIMINISHED', 'OTHER'], q))
+        + 'def pitchClassMapping : List (List Char) := %s\n' % lean_list(_chars(n) for n in names)
+        + 'def stepsMidi : List (Char × Int) := %s\n' % lean_list("('%s', %s)" % (st, lean_int(m)) for st, m in steps)
+        + 'def chordKindsByAbbrev : List (List Char × List (Nat × Int)) := %s\n' % lean_list(
+            '(%s, %s)' % (_chars(ab), lean_list('(%d, %s)' % (d, lean_int(a)) for d, a in degs)) for ab, degs in kinds)
+        + 'def degreeMods : List (List Char × Nat × Int) := %s\n' % lean_list(
+            '(%s, %d, %s)' % (_chars(ab), op, lean_int(a)) for ab, op, a in mods))
 
 
 def exc_name(f, *a):
@@ -63,124 +123,453 @@ def run(chk):
     generate(chk)
     chk.prove(MODULES, THEOREMS, [EXE],
               extra_trusted=['gen/translit.py (Python->Lean transliteration of melody one-hot and velocity-bin functions)',
-                             'math.ceil(a/b) on floats read as exact ceiling (validated by correspondence for all 127 bin counts)'])
+                             'math.ceil(a/b) on floats read as exact ceiling (validated by correspondence for all 127 bin counts)',
+                             'chord string layer (regular expressions of chord_symbols_lib._split_chord_symbol / _parse_pitch_class): '
+                             'modelled as "the symbol splits into the parts it was built from", run against the real parser on '
+                             'every decoded name and on the chord grammar',
+                             'table extraction in harness/c09.py generate() (drum table, _PITCH_CLASS_MAPPING, _STEPS_MIDI, '
+                             '_CHORD_KINDS_BY_ABBREV via _parse_degree, _DEGREE_MODIFICATIONS, quality constants)',
+                             'Python float comparison = comparison of the exact rational values (note density; NaN/inf excluded)'])
     chk.rule = ('melody: (min,max) ranges x indices/events incl. out-of-range; velocity: v x bins; performance: '
-                '(bins,max_shift,pitch range) x all indices and events; drums: class indices and pitch sets. '
+                '(bins,max_shift,pitch range) x all indices and events; drums: default table (all class indices, pitch sets, both '
+                'ignore_unknown settings) and random tables (disjoint / overlapping / with empty classes) x all indices and pitch sets; '
+                'chords: both encoders x all indices (and out-of-range ones), chord grammar root x kind x bass, symbols with degree '
+                'modifications; density: boundary lists x all indices and values incl. values equal/adjacent to a boundary. '
                 'non-trivial = distinct (configuration, argument) whose result is a value (not bad-op)')
     rng = chk.subrng('corr')
     reqs, impl = [], []
 
-    def add(stream, req, res, key):
-        reqs.append((stream, req, key))
+    def add(stream, req, res, key, hist=None):
+        reqs.append((stream, req, key, hist))
         impl.append(res)
 
-    # ---- melody
-    if chk.thorough:
-        ranges = [(a, b) for a in range(0, 128) for b in range(a + 1, 129)]
-    else:
-        ranges = [(rng.randrange(0, 128), 0) for _ in range(150)]
-        ranges = [(a, rng.randrange(a + 1, 129)) for a, _ in ranges] + [(0, 128), (0, 1), (127, 128), (48, 84)]
-    for (a, b) in ranges:
-        enc = med.MelodyOneHotEncoding(a, b)
-        n = enc.num_classes
-        idxs = set([0, 1, 2, n - 1, n // 2]) if chk.thorough else set(range(n)) if n < 20 else set(rng.sample(range(n), 12)) | {0, 1, 2, n - 1}
-        for i in sorted(x for x in idxs if 0 <= x < n):
-            add('melody', 'mel_dec %d %d' % (a, i), 'ok %d' % enc.decode_event(i), ('md', a, b, i))
-        evs = set([-3, -2, -1, 0, a - 1, a, b - 1, b, 127, 128]) | set(rng.sample(range(-4, 131), 4))
-        for e in sorted(evs):
-            r = exc_name(enc.encode_event, e)
-            add('melody', 'mel_enc %d %d %d' % (a, b, e), '%s %s' % r, ('me', a, b, e))
-    # illegal configurations must be rejected by the constructor (legal = theorem hypothesis)
-    for (a, b) in [(-1, 5), (0, 129), (5, 5), (6, 5)]:
-        r = exc_name(med.MelodyOneHotEncoding, a, b)
-        chk.count('melody-config', ('cfg', a, b), True, 'rejected' if r[0] == 'err' else 'accepted')
-        if r[0] != 'err':
-            chk.disagree('melody-config', [a, b], 'accepted', 'rejected (MelCfg)')
-    # ---- velocity
-    vs = range(1, 128)
-    ns = range(1, 128) if chk.thorough else sorted(set(rng.sample(range(1, 128), 30)) | {1, 2, 127, 126, 64, 32})
-    for nbin in ns:
-        for v in vs:
-            add('velocity', 'vel %d %d' % (v, nbin),
-                'ok %d %d' % (pl.velocity_to_bin(v, nbin), pl.velocity_bin_to_velocity(v, nbin)), ('v', v, nbin))
-    # ---- performance
-    grid = []
-    if chk.thorough:
-        for bins in list(range(0, 128, 9)) + [1, 127]:
-            for ms in [1, 2, 3, 100, 128, 1000]:
-                for (lo, hi) in [(0, 127), (21, 108), (60, 60), (0, 0), (127, 127), (36, 84)]:
-                    grid.append((bins, ms, lo, hi))
-    else:
-        for _ in range(25):
-            lo = rng.randrange(0, 128)
-            grid.append((rng.choice([0, 0, 1, 2, 32, 127, rng.randrange(0, 128)]), rng.choice([1, 2, 100, rng.randrange(1, 129)]),
-                         lo, rng.randrange(lo, 128)))
-        grid += [(0, 100, 0, 127), (32, 100, 21, 108), (1, 1, 5, 5)]
-    PE = pl.PerformanceEvent
-    for (bins, ms, lo, hi) in grid:
-        enc = ped.PerformanceOneHotEncoding(bins, ms, lo, hi)
-        n = enc.num_classes
-        cfg = '%d %d %d %d' % (bins, ms, lo, hi)
-        add('performance', 'perf_n ' + cfg, 'ok %d' % n, ('pn', cfg))
-        idxs = range(-1, n + 2) if (chk.thorough or n < 400) else sorted(set(rng.sample(range(n), 200)) | {-1, 0, n - 1, n, n + 1})
-        for i in idxs:
-            r = exc_name(enc.decode_event, i)
-            add('performance', 'perf_dec %s %d' % (cfg, i),
-                'ok %d %d' % (r[1].event_type, r[1].event_value) if r[0] == 'ok' else 'err %s' % r[1], ('pd', cfg, i))
-        for ty in (1, 2, 3, 4):
-            for v in sorted({lo, hi, 1, ms, max(bins, 1), (lo + hi) // 2}):
-                try:
-                    ev = PE(ty, v)
-                except ValueError:
-                    continue
-                r = exc_name(enc.encode_event, ev)
-                add('performance', 'perf_enc %s %d %d' % (cfg, ty, v), '%s %s' % r, ('pe', cfg, ty, v))
-        d = enc.default_event
-        if not (0 <= enc.encode_event(d) < n):
-            chk.fail('default_event encodes outside [0,num_classes)', {'config': cfg})
-    # ---- drums
-    denc = ded.MultiDrumOneHotEncoding()
-    for i in range(denc.num_classes):
-        add('drums', 'drum_dec %d' % i, 'ok ' + ' '.join(map(str, [len(denc.decode_event(i))] + sorted(denc.decode_event(i)))), ('dd', i))
-    for _ in range(chk.n(300, 5000)):
-        ps = sorted(set(rng.randrange(20, 90) for _ in range(rng.randrange(0, 7))))
-        add('drums', 'drum_enc ' + ' '.join(map(str, ps)), 'ok %d' % denc.encode_event(frozenset(ps)), ('de', tuple(ps)))
+    ranges, ns, grid, drum_sets, dens_cfgs = [], [], [], [], []
 
+    def impl_raised(stream, e):
+        # the real code raised where the correspondence expects a value: not a machinery error; the oracle below
+        # (which guards every call) looks for the concrete failing input
+        chk.disagree(stream, 'evaluating the correspondence inputs on the implementation',
+                     'raised %s: %s' % (type(e).__name__, e), 'n/a')
+
+    # ---- melody
+    try:
+        if chk.thorough:
+            ranges = [(a, b) for a in range(0, 128) for b in range(a + 1, 129)]
+        else:
+            ranges = [(rng.randrange(0, 128), 0) for _ in range(150)]
+            ranges = [(a, rng.randrange(a + 1, 129)) for a, _ in ranges] + [(0, 128), (0, 1), (127, 128), (48, 84)]
+        for (a, b) in ranges:
+            enc = med.MelodyOneHotEncoding(a, b)
+            n = enc.num_classes
+            idxs = set([0, 1, 2, n - 1, n // 2]) if chk.thorough else set(range(n)) if n < 20 else set(rng.sample(range(n), 12)) | {0, 1, 2, n - 1}
+            for i in sorted(x for x in idxs if 0 <= x < n):
+                add('melody', 'mel_dec %d %d' % (a, i), 'ok %d' % enc.decode_event(i), ('md', a, b, i))
+            evs = set([-3, -2, -1, 0, a - 1, a, b - 1, b, 127, 128]) | set(rng.sample(range(-4, 131), 4))
+            for e in sorted(evs):
+                r = exc_name(enc.encode_event, e)
+                add('melody', 'mel_enc %d %d %d' % (a, b, e), '%s %s' % r, ('me', a, b, e))
+        # illegal configurations must be rejected by the constructor (legal = theorem hypothesis)
+        for (a, b) in [(-1, 5), (0, 129), (5, 5), (6, 5)]:
+            r = exc_name(med.MelodyOneHotEncoding, a, b)
+            chk.count('melody-config', ('cfg', a, b), True, 'rejected' if r[0] == 'err' else 'accepted')
+            if r[0] != 'err':
+                chk.disagree('melody-config', [a, b], 'accepted', 'rejected (MelCfg)')
+    except Exception as e:  # pylint: disable=broad-except
+        impl_raised('melody', e)
+    # ---- velocity
+    try:
+        vs = range(1, 128)
+        ns = range(1, 128) if chk.thorough else sorted(set(rng.sample(range(1, 128), 30)) | {1, 2, 127, 126, 64, 32})
+        for nbin in ns:
+            for v in vs:
+                add('velocity', 'vel %d %d' % (v, nbin),
+                    'ok %d %d' % (pl.velocity_to_bin(v, nbin), pl.velocity_bin_to_velocity(v, nbin)), ('v', v, nbin))
+    except Exception as e:  # pylint: disable=broad-except
+        impl_raised('velocity', e)
+    # ---- performance
+    try:
+        grid = []
+        if chk.thorough:
+            for bins in range(0, 128):    # every velocity-bin count
+                for ms in [1, 2, 3, 100, 128, 1000]:
+                    for (lo, hi) in [(0, 127), (21, 108), (60, 60), (0, 0), (127, 127), (36, 84)]:
+                        grid.append((bins, ms, lo, hi))
+        else:
+            for _ in range(25):
+                lo = rng.randrange(0, 128)
+                grid.append((rng.choice([0, 0, 1, 2, 32, 127, rng.randrange(0, 128)]), rng.choice([1, 2, 100, rng.randrange(1, 129)]),
+                             lo, rng.randrange(lo, 128)))
+            grid += [(0, 100, 0, 127), (32, 100, 21, 108), (1, 1, 5, 5)]
+        PE = pl.PerformanceEvent
+        for (bins, ms, lo, hi) in grid:
+            enc = ped.PerformanceOneHotEncoding(bins, ms, lo, hi)
+            n = enc.num_classes
+            cfg = '%d %d %d %d' % (bins, ms, lo, hi)
+            add('performance', 'perf_n ' + cfg, 'ok %d' % n, ('pn', cfg))
+            # thorough: all indices for every 9th bin count (and 1, 127), the range edges + a sample for the others
+            # (the oracle below still visits every index of every configuration)
+            every = (chk.thorough and (bins % 9 == 0 or bins in (1, 127))) or n < 400
+            edges = {-1, 0, n - 1, n, n + 1, hi - lo, hi - lo + 1, 2 * (hi - lo) + 1, 2 * (hi - lo) + 2,
+                     2 * (hi - lo) + 1 + ms, 2 * (hi - lo) + 2 + ms}
+            idxs = range(-1, n + 2) if every else sorted(
+                set(rng.sample(range(n), 200 if not chk.thorough else 40)) | set(i for i in edges if -1 <= i <= n + 1))
+            for i in idxs:
+                r = exc_name(enc.decode_event, i)
+                add('performance', 'perf_dec %s %d' % (cfg, i),
+                    'ok %d %d' % (r[1].event_type, r[1].event_value) if r[0] == 'ok' else 'err %s' % r[1], ('pd', cfg, i))
+            for ty in (1, 2, 3, 4):
+                for v in sorted({lo, hi, 1, ms, max(bins, 1), (lo + hi) // 2}):
+                    try:
+                        ev = PE(ty, v)
+                    except ValueError:
+                        continue
+                    r = exc_name(enc.encode_event, ev)
+                    add('performance', 'perf_enc %s %d %d' % (cfg, ty, v), '%s %s' % r, ('pe', cfg, ty, v))
+            d = enc.default_event
+            if not (0 <= enc.encode_event(d) < n):
+                chk.fail('default_event encodes outside [0,num_classes)', {'config': cfg})
+    except Exception as e:  # pylint: disable=broad-except
+        impl_raised('performance', e)
+    # ---- drums, default table
+    try:
+        denc = ded.MultiDrumOneHotEncoding()
+        dstrict = ded.MultiDrumOneHotEncoding(ignore_unknown_drums=False)
+        nd = denc.num_classes
+        for i in list(range(nd)) + [nd, nd + 1, 2 * nd - 1, 2 * nd, 5 * nd + 3]:
+            add('drums', 'drum_dec %d' % i, show_set(exc_name(denc.decode_event, i)), ('dd', i))
+        default_table = [list(c) for c in ded.DEFAULT_DRUM_TYPE_PITCHES]
+        known = sorted(p for c in default_table for p in c)
+        drum_sets = []
+        for _ in range(chk.n(300, 5000)):
+            drum_sets.append(sorted(set(rng.randrange(20, 90) for _ in range(rng.randrange(0, 7)))))
+        for _ in range(chk.n(200, 3000)):   # only known pitches, so the strict encoder returns a value
+            drum_sets.append(sorted(set(rng.choice(known) for _ in range(rng.randrange(0, 8)))))
+        drum_sets += [[p] for p in range(0, 128)] + [[], known]
+        for ps in drum_sets:
+            add('drums', 'drum_enc ' + ' '.join(map(str, ps)), '%s %s' % exc_name(denc.encode_event, frozenset(ps)), ('de', tuple(ps)))
+            add('drums', 'drumg_enc 0 %s %s' % (wl(wl(c) for c in default_table), wl(ps)),
+                '%s %s' % exc_name(dstrict.encode_event, frozenset(ps)), ('des', tuple(ps)), hist='strict')
+    except Exception as e:  # pylint: disable=broad-except
+        impl_raised('drums', e)
+    # ---- drums, arbitrary tables (legal = pairwise disjoint non-empty classes; malformed = overlapping / empty classes)
+    try:
+        for t in range(chk.n(60, 1500)):
+            kind = 'disjoint' if t % 3 != 2 else rng.choice(['overlap', 'empty-class', 'overlap'])
+            table = gen_drum_table(rng, kind, chk.n(6, 9))
+            tw = wl(wl(c) for c in table)
+            for ign in (True, False):
+                e = ded.MultiDrumOneHotEncoding(drum_type_pitches=table, ignore_unknown_drums=ign)
+                if ign:
+                    n = e.num_classes
+                    idxs = range(n + 3) if n <= 64 else sorted(set(rng.sample(range(n), 60)) | {0, n - 1, n, n + 1})
+                    for i in idxs:
+                        add('drums-tables', 'drumg_dec %s %d' % (tw, i), show_set(exc_name(e.decode_event, i)),
+                            ('gd', tw, i), hist='dec:' + kind)
+                pool = sorted(set(p for c in table for p in c)) + [1, 2, 3]
+                for _ in range(12):
+                    ps = sorted(set(rng.choice(pool) for _ in range(rng.randrange(0, 6))))
+                    add('drums-tables', 'drumg_enc %d %s %s' % (ign, tw, wl(ps)), '%s %s' % exc_name(e.encode_event, frozenset(ps)),
+                        ('ge', ign, tw, tuple(ps)), hist='enc:' + kind)
+    except Exception as e:  # pylint: disable=broad-except
+        impl_raised('drums', e)
+    # ---- chords
+    try:
+        chord_requests(chk, rng, add)
+    except Exception as e:  # pylint: disable=broad-except
+        impl_raised('chords', e)
+    # ---- note density
+    try:
+        dens_cfgs = density_configs(chk, rng)
+        density_requests(chk, dens_cfgs, add)
+    except Exception as e:  # pylint: disable=broad-except
+        impl_raised('density', e)
     # ---- run the model on the same requests and diff
-    model = chk.driver(EXE, [r for (_, r, _) in reqs])
-    for (stream, req, key), a, b in zip(reqs, impl, model):
-        if stream == 'drums' and req.startswith('drum_dec') and b.startswith('ok'):
-            t = b.split()
-            b = 'ok ' + ' '.join([t[1]] + sorted(t[2:], key=int))
-        chk.count(stream, key, nontrivial=(b != 'bad-op'), hist=a.split()[0] if stream != 'performance' else req.split()[0] + ':' + a.split()[0])
+    model = chk.driver(EXE, [r for (_, r, _, _) in reqs])
+    for (stream, req, key, hist), a, b in zip(reqs, impl, model):
+        op = req.split(' ', 1)[0]
+        if op in ('drum_dec', 'drumg_dec') and b.startswith('ok'):
+            # decode_event returns a frozenset: the model's list is compared as a set
+            ps = sorted(set(int(x) for x in b.split()[2:]))
+            b = 'ok ' + ' '.join(map(str, [len(ps)] + ps))
+        h = [hist or (a.split()[0] if stream != 'performance' else op + ':' + a.split()[0])]
+        if hist and not a.startswith('ok'):
+            h.append(hist + ':' + a)
+        chk.count(stream, key, nontrivial=(b != 'bad-op'), hist=h)
         if a != b:
             chk.disagree(stream, req, a, b)
-    for s in ('mel_dec 48 5', 'mel_enc 48 84 60', 'vel 100 32', 'perf_dec 32 100 21 108 300', 'drum_dec 37'):
-        i = [r for (_, r, _) in reqs].index(s) if s in [r for (_, r, _) in reqs] else None
+    allreq = [r for (_, r, _, _) in reqs]
+    for s in ('mel_dec 48 5', 'vel 100 32', 'drum_dec 37', 'mm_dec 14', 'tri_dec 48'):
+        i = allreq.index(s) if s in allreq else None
         if i is not None:
-            chk.sample({'request': s, 'impl': impl[i], 'model': model[i]})
-    chk.sample({'request': reqs[0][1], 'impl': impl[0], 'model': model[0]})
+            chk.sample({'request': s, 'impl': impl[i], 'model': model[i]}, limit=12)
+    for op in ('tri_enc ', 'dens_enc', 'drumg_enc 0'):
+        i = next((k for k, r in enumerate(allreq) if r.startswith(op)), None)
+        if i is not None:
+            chk.sample({'request': allreq[i], 'impl': impl[i], 'model': model[i]}, limit=12)
 
     # ---- property oracle on the real code (independent of the model)
-    oracle(chk, ranges, ns, grid)
+    oracle(chk, ranges, ns, grid, drum_sets, dens_cfgs)
     chk.exhaustive = chk.thorough
+    chk.notes['not_one_hot'] = NOT_ONE_HOT
 
 
-def oracle(chk, ranges, ns, grid):
+NOT_ONE_HOT = ('PitchHistogramPerformanceControlSignal.PitchHistogramEncoder and PitchChordsEncoderDecoder are '
+               'EventSequenceEncoderDecoders with an input vector only (num_classes / events_to_label / class_index_to_event raise '
+               'NotImplementedError): no encode/decode pair, not a OneHotEncoding, outside this property. '
+               'KeyMelodyEncoderDecoder, NotePerformanceEventSequenceEncoderDecoder and ModuloPerformanceEventSequenceEncoderDecoder '
+               'are label encoders over event sequences (property C08); the last one delegates labels to PerformanceOneHotEncoding, '
+               'which is covered here. PerformanceModuloEncoding has no decode direction.')
+
+
+def show_set(r):
+    if r[0] == 'ok':
+        return 'ok ' + ' '.join(map(str, [len(r[1])] + sorted(r[1])))
+    return 'err %s' % r[1]
+
+
+def gen_drum_table(rng, kind, max_classes):
+    """legal tables: pairwise-disjoint non-empty classes over a small pitch pool (so events hit and miss);
+    malformed: a pitch shared by two classes (first or later position), or an empty class."""
+    n = rng.choice([0, 1, 2, 3, 3, 4, 5, max_classes])
+    pool = rng.sample(range(20, 60), min(40, 4 * n + 2))
+    table, k = [], 0
+    for _ in range(n):
+        m = rng.randrange(1, 5)
+        table.append(pool[k:k + m])
+        k += m
+    if kind == 'overlap' and n >= 2:
+        i, j = rng.sample(range(n), 2)
+        src = table[i][0] if rng.random() < 0.5 else rng.choice(table[i])
+        table[j].insert(rng.randrange(0, len(table[j]) + 1), src)
+    elif kind == 'empty-class' and n >= 1:
+        table[rng.randrange(n)] = []
+    return table
+
+
+# ------------------------------------------------------------------------------------ chords
+STEPS = 'CDEFGAB'
+
+
+def acc(alter):
+    return '#' * alter if alter >= 0 else 'b' * (-alter)
+
+
+def chord_grammar(chk, rng):
+    """(step, alter, kind index, mods [(mod index, degree, parenthesised)], bass or None).
+    thorough: the whole grammar root (7 letters x alterations -3..3) x 68 kind abbreviations x (no bass | 21 basses);
+    quick: a sample of it containing every kind abbreviation and every root at least once."""
+    from note_seq import chord_symbols_lib as csl
+    nk = len(csl._CHORD_KINDS_BY_ABBREV)
+    basses = [None] + [(st, al) for st in STEPS for al in (-1, 0, 1)]
+    out = []
+    if chk.thorough:
+        for st in STEPS:
+            for al in range(-3, 4):
+                for k in range(nk):
+                    for b in basses:
+                        out.append((st, al, k, [], b))
+    else:
+        for k in range(nk):
+            for _ in range(6):
+                out.append((rng.choice(STEPS), rng.choice([-2, -1, 0, 0, 1, 2]), k, [], rng.choice(basses + [None] * 10)))
+        for st in STEPS:
+            for al in range(-3, 4):
+                out.append((st, al, rng.randrange(nk), [], None))
+    # a few extreme alterations (the root regex allows any number of accidentals)
+    for al in (-13, -12, -7, 5, 11, 12, 25):
+        for k in (0, 3, 7, 9, 20):
+            out.append((rng.choice(STEPS), al, k, [], None))
+    return out
+
+
+def chord_mod_symbols(chk, rng):
+    """symbols with 1..3 scale-degree modifications (incl. illegal ones: add of a present degree, removal of an absent one)"""
+    from note_seq import chord_symbols_lib as csl
+    nk = len(csl._CHORD_KINDS_BY_ABBREV)
+    modtab = list(csl._DEGREE_MODIFICATIONS)
+    kinds = list(csl._CHORD_KINDS_BY_ABBREV)
+    out = []
+    for _ in range(chk.n(800, 30000)):
+        k = rng.choice([0, 0, 3, 3, 1, 4, 10, 13, 6, 8, 67, 62] + [rng.randrange(nk)] * 4)
+        mods = []
+        present = set(csl._parse_degree(d)[0] for d in csl._CHORD_KINDS_BY_ABBREV[kinds[k]])
+        for _ in range(rng.choice([1, 1, 2, 3])):
+            mi = rng.randrange(len(modtab))
+            deg = rng.choice([1, 3, 5, 3, 5, 7, 2, 4, 6, 9, 11, 13, rng.randrange(0, 16)])
+            if rng.random() < 0.5:    # leave the triad alone half of the time, so that encodable symbols dominate
+                deg = rng.choice([2, 4, 6, 7, 9, 11, 13])
+            if rng.random() < 0.85:   # mostly legal: add an absent degree, remove a present one
+                fn = csl._DEGREE_MODIFICATIONS[modtab[mi]][0].__name__
+                if fn == '_add_scale_degree' and deg in present:
+                    deg = rng.choice([d for d in (2, 3, 4, 5, 6, 7, 9, 11, 13) if d not in present] or [14])
+                if fn == '_subtract_scale_degree' and deg not in present and present:
+                    deg = rng.choice(sorted(present))
+                if fn == '_add_scale_degree':
+                    present.add(deg)
+                elif fn == '_subtract_scale_degree':
+                    present.discard(deg)
+                else:
+                    present.add(deg)
+            paren = True if modtab[mi] in ('#', 'b') else rng.random() < 0.6
+            mods.append((mi, deg, paren))
+        out.append((rng.choice(STEPS), rng.choice([-1, 0, 0, 1]), k, mods,
+                    rng.choice([None, None, (rng.choice(STEPS), rng.choice([-1, 0, 1]))])))
+    return out
+
+
+def sym_string(sym):
+    from note_seq import chord_symbols_lib as csl
+    st, al, k, mods, bass = sym
+    kinds = list(csl._CHORD_KINDS_BY_ABBREV)
+    modtab = list(csl._DEGREE_MODIFICATIONS)
+    s = st + acc(al) + kinds[k]
+    for (mi, deg, paren) in mods:
+        s += ('(%s%d)' if paren else '%s%d') % (modtab[mi], deg)
+    if bass:
+        s += '/' + bass[0] + acc(bass[1])
+    return s
+
+
+def sym_wire(sym):
+    st, al, k, mods, _ = sym
+    return '%s %d %d %s' % (st, al, k, wl('%d %d' % (mi, deg) for (mi, deg, _) in mods))
+
+
+def chord_encoders():
+    from note_seq import chords_encoder_decoder as ced
+    return {'mm': ced.MajorMinorChordOneHotEncoding(), 'tri': ced.TriadChordOneHotEncoding()}
+
+
+def chord_requests(chk, rng, add):
+    from note_seq import chord_symbols_lib as csl, chords_encoder_decoder as ced
+    encs = chord_encoders()
+    for which, enc in encs.items():
+        n = enc.num_classes
+        add('chords', which + '_enc_nc', '%s %s' % exc_name(enc.encode_event, ced.NO_CHORD), ('cn', which), hist=which + ':enc-no-chord')
+        for i in range(-n - 2, 2 * n + 3):
+            r = exc_name(enc.decode_event, i)
+            if r[0] == 'err':
+                res = 'err %s' % r[1]
+            elif r[1] == ced.NO_CHORD:
+                res = 'ok %s' % ced.NO_CHORD
+            else:
+                # string layer on a decoded name: how the real regex splits it, and the real root / quality
+                root_s, kind_s, mods_s, bass_s = csl._split_chord_symbol(r[1])
+                res = 'ok %s %s | ok %d %d' % (root_s, kind_s or '_', csl.chord_symbol_root(r[1]), csl.chord_symbol_quality(r[1]))
+                if mods_s or bass_s or root_s + kind_s != r[1]:
+                    res += ' (split %r)' % ((root_s, kind_s, mods_s, bass_s),)
+            add('chords', '%s_dec %d' % (which, i), res, ('cd', which, i),
+                hist=which + (':dec' if 0 <= i < n else ':dec-out-of-range'))
+    gram = chord_grammar(chk, rng)
+    modsyms = chord_mod_symbols(chk, rng)
+    chk.notes['chord_grammar_symbols'] = len(gram)
+    for sym in gram + modsyms:
+        fig = sym_string(sym)
+        w = sym_wire(sym)
+        tag = 'mods' if sym[3] else 'grammar'
+        if not sym[4]:   # root/quality of the real parser vs the structured model (bass never matters)
+            def rq():
+                return '%d %d' % (csl.chord_symbol_root(fig), csl.chord_symbol_quality(fig))
+            add('chords', 'sym_rq ' + w, '%s %s' % exc_name(rq), ('rq', fig), hist=tag + ':root-quality')
+        for which, enc in encs.items():
+            add('chords', '%s_enc %s' % (which, w), '%s %s' % exc_name(enc.encode_event, fig), ('ce', which, fig),
+                hist='%s:%s-enc' % (which, tag))
+    return gram, modsyms
+
+
+# ------------------------------------------------------------------------------------ density
+DENS_POOL = [0.1, 0.25, 1 / 3, 0.5, 1.0, 1.5, 2.0, 3.3, 4.0, 8.0, 15.0, 16.0, 32.0, 64.0, 1e-9, 1e9, 0.30000000000000004, 0.3]
+
+
+def density_encoding(bounds):
+    from note_seq import performance_controls as pc
+    return pc.NoteDensityPerformanceControlSignal.NoteDensityOneHotEncoding(bounds)
+
+
+def density_configs(chk, rng):
+    """(kind, boundaries, values): legal = strictly increasing positive boundaries; values include every boundary and
+    its two neighbouring floats.  Pure (no call into the implementation)."""
+    import math
+    cfgs = [('legal', [1.0, 2.0, 4.0, 8.0, 16.0, 32.0, 64.0]), ('legal', []), ('legal', [0.5]), ('legal', [1, 2, 3])]
+    for t in range(chk.n(60, 2500)):
+        n = rng.choice([0, 1, 2, 3, 5, 8, 12])
+        vals = [rng.choice(DENS_POOL) if rng.random() < 0.6 else rng.uniform(0.01, 50.0) for _ in range(n)]
+        if t % 4 != 3:
+            cfgs.append(('legal', sorted(set(vals))))
+        else:   # malformed: unsorted, repeated, zero or negative boundaries
+            vals += rng.choice([[0.0], [-1.0], vals[:1], [2.0, 2.0]])
+            rng.shuffle(vals)
+            cfgs.append(('malformed', vals))
+    out = []
+    for kind, bounds in cfgs:
+        xs = [0.0, 0, 15.0, 1e12]
+        for b in bounds:
+            xs += [b, math.nextafter(b, math.inf), math.nextafter(b, -math.inf)]
+        top = max([1.0] + [float(b) for b in bounds])
+        xs += [rng.uniform(0.0, 1.3 * top) for _ in range(6)] + [rng.choice(DENS_POOL), rng.randrange(0, 70)]
+        xs = [x for x in xs if x >= 0 or kind == 'malformed']
+        out.append((kind, bounds, xs))
+    return out
+
+
+def density_requests(chk, cfgs, add):
+    from note_seq import performance_controls as pc
+    # the encoder as the control signal builds it (the class is nested in NoteDensityPerformanceControlSignal)
+    sig = pc.NoteDensityPerformanceControlSignal(window_size_seconds=3.0, density_bin_ranges=cfgs[0][1])
+    via_signal = sig.encoder._one_hot_encoding  # pylint: disable=protected-access
+    for ci, (kind, bounds, xs) in enumerate(cfgs):
+        enc = via_signal if ci == 0 else density_encoding(bounds)
+        bw = wl(rat(b) for b in bounds)
+        n = enc.num_classes
+        for i in range(-n - 2, n + 3):
+            r = exc_name(enc.decode_event, i)
+            add('density', 'dens_dec %s %d' % (bw, i), 'ok %s' % rat(r[1]) if r[0] == 'ok' else 'err %s' % r[1],
+                ('nd', bw, i), hist='dec:%s%s' % (kind, '' if 0 <= i < n else ':out-of-range'))
+        for x in xs:
+            r = exc_name(enc.encode_event, x)
+            add('density', 'dens_enc %s %s' % (bw, rat(x)), 'ok %s %d' % (r[1], n) if r[0] == 'ok' else 'err %s' % r[1],
+                ('ne', bw, rat(x)), hist='enc:%s%s' % (kind, ':at-boundary' if any(x == b for b in bounds) else ''))
+
+
+# ------------------------------------------------------------------------------------ oracle
+def oracle(chk, ranges, ns, grid, drum_sets, dens_cfgs):
     """the property statement evaluated directly on the implementation; an exception raised by
     the implementation on a valid argument is a failure of the property, not of the machinery."""
-    try:
-        _oracle(chk, ranges, ns, grid)
-    except Exception as e:  # pylint: disable=broad-except
-        chk.fail('implementation raised %s: %s on a valid index/event (see input)' % (type(e).__name__, e), dict(_CUR))
+    for part in (_oracle_corpus, _oracle_melody, _oracle_velocity, _oracle_performance, _oracle_drums, _oracle_chords, _oracle_density):
+        try:
+            part(chk, ranges=ranges, ns=ns, grid=grid, drum_sets=drum_sets, dens_cfgs=dens_cfgs)
+        except Exception as e:  # pylint: disable=broad-except
+            chk.fail('implementation raised %s: %s on a valid index/event (see input)' % (type(e).__name__, e), dict(_CUR))
 
 
 _CUR = {}
 
 
-def _oracle(chk, ranges, ns, grid):
+def cur(**kw):
+    _CUR.clear()
+    _CUR.update(kw)
+    return dict(kw)
+
+
+def _oracle_corpus(chk, **_):
+    """committed regression inputs (corpus/C09): each is evaluated with the same evaluator as a replay"""
+    import contextlib
+    import io
     from note_seq import melody_encoder_decoder as med, performance_lib as pl, drums_encoder_decoder as ded
     from note_seq import performance_encoder_decoder as ped
+    for name, case in corpus_cases(PID):
+        obj = case.get('input', case)
+        chk.count('corpus', name, True, hist=obj.get('enc'))
+        cur(**obj)
+        buf = io.StringIO()
+        with contextlib.redirect_stdout(buf):
+            rc = _replay(obj, obj.get('enc'), med, pl, ded, ped)
+        if rc:
+            chk.fail('corpus case %s: %s' % (name, ' / '.join(buf.getvalue().strip().split('\n')[:2])), dict(obj))
+
+
+def _oracle_melody(chk, ranges, **_):
+    from note_seq import melody_encoder_decoder as med
     for (a, b) in ranges:
         enc = med.MelodyOneHotEncoding(a, b)
         n = enc.num_classes
@@ -196,6 +585,10 @@ def _oracle(chk, ranges, ns, grid):
             if not (0 <= j < n) or enc.decode_event(j) != e:
                 chk.fail('melody decode(encode(e)) != e or out of range', {'enc': 'melody', 'min': a, 'max': b, 'event': e})
                 break
+
+
+def _oracle_velocity(chk, ns, **_):
+    from note_seq import performance_lib as pl
     for nbin in ns:
         prev = 0
         for v in range(1, 128):
@@ -210,6 +603,10 @@ def _oracle(chk, ranges, ns, grid):
             if pl.velocity_to_bin(pl.velocity_bin_to_velocity(b, nbin), nbin) != b:
                 chk.fail('bin_to_velocity is not a right inverse', {'enc': 'velocity', 'bin': b, 'bins': nbin})
                 break
+
+
+def _oracle_performance(chk, grid, **_):
+    from note_seq import performance_encoder_decoder as ped
     for (bins, ms, lo, hi) in grid:
         enc = ped.PerformanceOneHotEncoding(bins, ms, lo, hi)
         for i in range(enc.num_classes):
@@ -218,13 +615,246 @@ def _oracle(chk, ranges, ns, grid):
             if enc.encode_event(enc.decode_event(i)) != i:
                 chk.fail('performance encode(decode(i)) != i', {'enc': 'performance', 'cfg': [bins, ms, lo, hi], 'index': i})
                 break
-    denc = ded.MultiDrumOneHotEncoding()
-    for i in range(denc.num_classes):
+        # encode direction: every valid event of the configuration (note on/off in the pitch range, shifts
+        # 1..max_shift_steps, and every velocity bin velocity_to_bin can produce for this bin count) must land in
+        # [0, num_classes) and decode to itself — independent of what the class itself says num_classes is
+        msg = perf_encode_check(bins, ms, lo, hi)
+        if msg:
+            chk.fail(msg[0], msg[1])
+
+
+def perf_valid_events(bins, ms, lo, hi):
+    from note_seq import performance_lib as pl
+    PE = pl.PerformanceEvent
+    evs = [(PE.NOTE_ON, p) for p in (lo, hi, (lo + hi) // 2)] + [(PE.NOTE_OFF, p) for p in (lo, hi)]
+    evs += [(PE.TIME_SHIFT, v) for v in sorted({1, ms, (1 + ms) // 2})]
+    if bins > 0:
+        evs += [(PE.VELOCITY, b) for b in sorted({pl.velocity_to_bin(v, bins) for v in (1, 64, 127)})]
+    return evs
+
+
+def perf_encode_check(bins, ms, lo, hi):
+    from note_seq import performance_encoder_decoder as ped, performance_lib as pl
+    enc = ped.PerformanceOneHotEncoding(bins, ms, lo, hi)
+    n = enc.num_classes
+    seen = {}
+    for (ty, v) in perf_valid_events(bins, ms, lo, hi):
+        _CUR.clear(); _CUR.update({'enc': 'performance', 'cfg': [bins, ms, lo, hi], 'event': [ty, v]})
+        try:
+            j = enc.encode_event(pl.PerformanceEvent(ty, v))
+            d = enc.decode_event(j) if 0 <= j < n else None
+        except Exception as e:  # pylint: disable=broad-except
+            return ('performance: valid event (type %d, value %d) raised %s' % (ty, v, type(e).__name__), dict(_CUR))
+        if not 0 <= j < n or (d.event_type, d.event_value) != (ty, v) or seen.setdefault(j, (ty, v)) != (ty, v):
+            return ('performance: valid event (type %d, value %d) -> index %r outside [0,%d) / not decoded back / collides'
+                    % (ty, v, j, n), dict(_CUR))
+    return None
+
+
+def drum_check(table, obj):
+    """property statement for one drum replay object (table None = the shipped default). Returns a failure text or None."""
+    from note_seq import drums_encoder_decoder as ded
+    enc = ded.MultiDrumOneHotEncoding(drum_type_pitches=table)
+    strict = ded.MultiDrumOneHotEncoding(drum_type_pitches=table, ignore_unknown_drums=False)
+    tab = ded.DEFAULT_DRUM_TYPE_PITCHES if table is None else table
+    n = enc.num_classes
+    if 'index' in obj:
+        i = obj['index']
+        ev = enc.decode_event(i)
+        if enc.encode_event(ev) != i:
+            return 'drum encode(decode(%d)) = %r != %d (decode gave %r)' % (i, enc.encode_event(ev), i, sorted(ev))
+        if strict.encode_event(ev) != i:
+            return 'drum strict encode(decode(i)) != i'
+        return None
+    s = frozenset(obj['pitches'])
+    j = enc.encode_event(s)
+    if not (isinstance(j, int) and 0 <= j < n):
+        return 'drum encode(%r) = %r outside [0, %d)' % (sorted(s), j, n)
+    canon = frozenset(c[0] for c in tab if s & set(c))   # first pitch of every class hit by s
+    got = enc.decode_event(j)
+    if got != canon:
+        return 'drum decode(encode(%r)) = %r, canonical representative is %r' % (sorted(s), sorted(got), sorted(canon))
+    if enc.encode_event(got) != j:
+        return 'drum encode(decode(encode(s))) != encode(s) (not the same drum classes)'
+    unknown = [p for p in s if not any(p in c for c in tab)]
+    try:
+        js = strict.encode_event(s)
+        if unknown:
+            return 'ignore_unknown_drums=False accepted the unknown pitches %r' % unknown
+        if js != j:
+            return 'ignore_unknown_drums=False changed the class of a fully known set'
+    except ded.DrumsEncodingError:
+        if not unknown:
+            return 'DrumsEncodingError for a set of known pitches %r' % sorted(s)
+    return None
+
+
+def _oracle_drums(chk, drum_sets, **_):
+    rng = chk.subrng('oracle-drums')
+    from note_seq import drums_encoder_decoder as ded
+    n = ded.MultiDrumOneHotEncoding().num_classes
+    cases = [(None, {'index': i}) for i in range(n)]
+    sets = [[p] for p in range(128)] + list(drum_sets)   # singletons first: smallest failing inputs
+    for _ in range(chk.n(500, 20000)):
+        sets.append(sorted(set(rng.randrange(0, 128) for _ in range(rng.randrange(0, 10)))))
+    cases += [(None, {'pitches': list(ps)}) for ps in sets]
+    for _ in range(chk.n(40, 800)):   # other legal configurations: pairwise-disjoint non-empty tables
+        table = gen_drum_table(rng, 'disjoint', 9)
+        m = 2 ** len(table)
+        idxs = range(m) if m <= 64 else rng.sample(range(m), 64)
+        cases += [(table, {'index': i}) for i in idxs]
+        pool = sorted(set(p for c in table for p in c)) + [1, 2]
+        cases += [(table, {'pitches': sorted(set(rng.choice(pool) for _ in range(rng.randrange(0, 7))))}) for _ in range(20)]
+    for table, obj in cases:
         chk.count('oracle', None)
-        _CUR.clear(); _CUR.update({'enc': 'drums', 'index': i})
-        if denc.encode_event(denc.decode_event(i)) != i:
-            chk.fail('drum encode(decode(i)) != i', {'enc': 'drums', 'index': i})
+        rep = cur(enc='drums', **obj)
+        if table is not None:
+            rep['table'] = table
+            _CUR['table'] = table
+        bad = drum_check(table, obj)
+        if bad:
+            chk.fail(bad, rep)
             break
+
+
+STEP_PC = {'C': 0, 'D': 2, 'E': 4, 'F': 5, 'G': 7, 'A': 9, 'B': 11}
+
+
+def kind_quality(kind):
+    """triad quality of a chord kind read off the degree names of `_CHORD_KINDS` (independent of the parser):
+    major (1 3 5), minor (1 b3 5), augmented (1 3 #5), diminished (1 b3 b5), anything else = other"""
+    from note_seq import chord_symbols_lib as csl
+    degs = csl._CHORD_KINDS_BY_ABBREV[kind]
+    third = [d for d in degs if d.lstrip('#b') == '3']
+    fifth = [d for d in degs if d.lstrip('#b') == '5']
+    if '1' not in degs or len(third) != 1 or len(fifth) != 1:
+        return csl.CHORD_QUALITY_OTHER
+    return {('3', '5'): csl.CHORD_QUALITY_MAJOR, ('b3', '5'): csl.CHORD_QUALITY_MINOR,
+            ('3', '#5'): csl.CHORD_QUALITY_AUGMENTED, ('b3', 'b5'): csl.CHORD_QUALITY_DIMINISHED}.get(
+                (third[0], fifth[0]), csl.CHORD_QUALITY_OTHER)
+
+
+def chord_check(which, obj):
+    from note_seq import chord_symbols_lib as csl, chords_encoder_decoder as ced
+    enc = chord_encoders()[which]
+    n = enc.num_classes
+    allowed = (csl.CHORD_QUALITY_MAJOR, csl.CHORD_QUALITY_MINOR)
+    if which == 'tri':
+        allowed += (csl.CHORD_QUALITY_AUGMENTED, csl.CHORD_QUALITY_DIMINISHED)
+    if 'index' in obj:
+        i = obj['index']
+        ev = enc.decode_event(i)
+        j = enc.encode_event(ev)
+        if j != i:
+            return '%s chord encode(decode(%d)) = encode(%r) = %r' % (which, i, ev, j)
+        return None
+    fig = obj['symbol']
+    if fig == ced.NO_CHORD:
+        j = enc.encode_event(fig)
+        if j != 0 or enc.decode_event(j) != ced.NO_CHORD:
+            return 'NO_CHORD does not round-trip'
+        return None
+    root, quality = csl.chord_symbol_root(fig), csl.chord_symbol_quality(fig)
+    if 'expect' in obj and [root, quality] != list(obj['expect']):
+        return 'chord %r: root/quality (%d, %d), the symbol was built with %r' % (fig, root, quality, obj['expect'])
+    try:
+        j = enc.encode_event(fig)
+    except ced.ChordEncodingError:
+        if quality in allowed:
+            return '%s chord %r of quality %d rejected' % (which, fig, quality)
+        return None
+    if quality not in allowed:
+        return '%s chord %r of quality %d accepted as class %r' % (which, fig, quality, j)
+    if not (isinstance(j, int) and 0 <= j < n):
+        return '%s chord encode(%r) = %r outside [0, %d)' % (which, fig, j, n)
+    back = enc.decode_event(j)
+    if back == ced.NO_CHORD or csl.chord_symbol_root(back) != root or csl.chord_symbol_quality(back) != quality:
+        return '%s chord decode(encode(%r)) = %r has a different root or triad quality' % (which, fig, back)
+    if enc.encode_event(back) != j:
+        return '%s chord %r: canonical representative %r encodes elsewhere' % (which, fig, back)
+    return None
+
+
+def _oracle_chords(chk, **_):
+    from note_seq import chord_symbols_lib as csl, chords_encoder_decoder as ced
+    rng = chk.subrng('oracle-chords')
+    kinds = list(csl._CHORD_KINDS_BY_ABBREV)
+    for which, enc in chord_encoders().items():
+        seen = {}
+        for i in range(enc.num_classes):
+            chk.count('oracle', None)
+            rep = cur(enc='chord', which=which, index=i)
+            bad = chord_check(which, rep)
+            ev = enc.decode_event(i)
+            if not bad and ev in seen:
+                bad = '%s chord classes %d and %d decode to the same event %r' % (which, seen[ev], i, ev)
+            seen[ev] = i
+            if bad:
+                chk.fail(bad, rep)
+                break
+        syms = [(s, True) for s in chord_grammar(chk, rng)] + [(s, False) for s in chord_mod_symbols(chk, rng)]
+        syms.append(None)
+        for item in syms:
+            chk.count('oracle', None)
+            if item is None:
+                rep = cur(enc='chord', which=which, symbol=ced.NO_CHORD)
+            else:
+                sym, plain = item
+                rep = cur(enc='chord', which=which, symbol=sym_string(sym))
+                if plain:   # what the symbol was built from: root letter/alteration and kind abbreviation
+                    rep['expect'] = [(STEP_PC[sym[0]] + sym[1]) % 12, kind_quality(kinds[sym[2]])]
+                    _CUR['expect'] = rep['expect']
+            try:
+                bad = chord_check(which, rep)
+            except csl.ChordSymbolError:
+                if item is not None and item[1]:
+                    raise        # a plain grammar symbol must parse
+                continue         # illegal modification: not a valid event
+            if bad:
+                chk.fail(bad, rep)
+                break
+
+
+def density_check(bounds, obj):
+    enc = density_encoding(bounds)
+    n = enc.num_classes
+    if n != len(bounds) + 1:
+        return 'num_classes = %r for %d boundaries' % (n, len(bounds))
+    if 'index' in obj:
+        i = obj['index']
+        j = enc.encode_event(enc.decode_event(i))
+        if j != i:
+            return 'density encode(decode(%d)) = encode(%r) = %r' % (i, enc.decode_event(i), j)
+        return None
+    x = obj['value']
+    j = enc.encode_event(x)
+    if not (isinstance(j, int) and 0 <= j < n):
+        return 'density encode(%r) = %r outside [0, %d)' % (x, j, n)
+    v = enc.decode_event(j)
+    lower = 0.0 if j == 0 else bounds[j - 1]
+    if v != lower or not v <= x or (j < len(bounds) and not x < bounds[j]):
+        return ('density %r -> class %d -> %r: not the lower bound of the bin containing the value (boundaries %r)'
+                % (x, j, v, bounds))
+    return None
+
+
+def _oracle_density(chk, dens_cfgs, **_):
+    d = density_encoding([1.0]).default_event
+    if d != 0.0:
+        chk.fail('NoteDensityOneHotEncoding.default_event = %r' % d, cur(enc='density', bounds=[1.0], value=0.0))
+    nfail = 0
+    for kind, bounds, xs in dens_cfgs:
+        if kind != 'legal' or nfail >= 3:
+            continue
+        cases = [{'index': i} for i in range(len(bounds) + 1)] + [{'value': x} for x in xs]
+        for obj in cases:
+            chk.count('oracle', None)
+            rep = cur(enc='density', bounds=list(bounds), **obj)
+            bad = density_check(bounds, obj)
+            if bad:
+                chk.fail(bad, rep)
+                nfail += 1
+                break
 
 
 def replay(chk, obj):
@@ -232,7 +862,6 @@ def replay(chk, obj):
     from note_seq import performance_encoder_decoder as ped
     print('replay', obj)
     e = obj.get('enc')
-    bad = False
     try:
         return _replay(obj, e, med, pl, ded, ped)
     except Exception as ex:  # pylint: disable=broad-except
@@ -263,14 +892,29 @@ def _replay(obj, e, med, pl, ded, ped):
             print('to_bin(from_bin(%d)) = %d' % (obj['bin'], r))
             bad = r != obj['bin']
     elif e == 'performance':
-        enc = ped.PerformanceOneHotEncoding(*obj['cfg'])
-        r = enc.encode_event(enc.decode_event(obj['index']))
-        print('encode(decode(%d)) = %r' % (obj['index'], r))
-        bad = r != obj['index']
+        if 'event' in obj:
+            msg = perf_encode_check(*obj['cfg'])
+            print(msg[0] if msg else 'every valid event encodes into range and decodes back')
+            bad = msg is not None
+        else:
+            enc = ped.PerformanceOneHotEncoding(*obj['cfg'])
+            r = enc.encode_event(enc.decode_event(obj['index']))
+            print('encode(decode(%d)) = %r' % (obj['index'], r))
+            bad = r != obj['index']
     elif e == 'drums':
-        enc = ded.MultiDrumOneHotEncoding()
-        r = enc.encode_event(enc.decode_event(obj['index']))
-        print('encode(decode(%d)) = %r' % (obj['index'], r))
-        bad = r != obj['index']
+        msg = drum_check(obj.get('table'), obj)
+        print(msg or 'round trip as the property states')
+        bad = msg is not None
+    elif e == 'chord':
+        msg = chord_check(obj['which'], obj)
+        print(msg or 'round trip as the property states')
+        bad = msg is not None
+    elif e == 'density':
+        msg = density_check(obj['bounds'], obj)
+        print(msg or 'round trip as the property states')
+        bad = msg is not None
+    else:
+        print('unknown replay object')
+        return 2
     print('PROPERTY FAILS' if bad else 'property holds on this input')
     return 1 if bad else 0
